@@ -101,6 +101,10 @@ def verify_one(job):
             # discharged in the process that generated the formula: z3 behaves measurably worse on the same formula after a
             # round trip through SMT-LIB text (different term order / let-structure), so nothing is re-parsed
             discharge(ob, both=opts.get("both", False), use_cvc5=opts.get("cvc5", True))
+            if ob.verdict == "refuted" and getattr(ob, "weak", None):
+                # the counter-model lives in an over-approximation no annotation vouches for: the proof is lost, nothing is refuted
+                ob.verdict, ob.model = "unknown", None
+                ob.reason = "proof lost (not a refutation): " + "; ".join(sorted(set(ob.weak)))[:300]
             d = {
                 "name": ob.name + (f"[{fam}]" if fam else ""),
                 "kind": ob.kind,
